@@ -23,7 +23,7 @@ import numpy as _np
 import sympy as sp
 
 from . import sym
-from .sym import A, S, T, Shape, Dep, DepMethod, SymBranch, Unsupported, ShapeError, has_sym, has_dep, deps_of
+from .sym import A, S, T, Shape, Dep, DepMethod, SeqA, StarSeq, SymBranch, Unsupported, ShapeError, has_sym, has_dep, deps_of
 
 # --------------------------------------------------------------------------------------
 
@@ -511,6 +511,10 @@ class Interp:
             return ov(self, *a2, **kwargs)
         if isinstance(fn, DepMethod):
             return fn(*args, **kwargs)
+        # 1a. random numbers are always logged (also in dependency mode)
+        _m = getattr(fn, "__module__", None) or ""
+        if type(getattr(fn, "__self__", None)).__name__ in ("RandomState", "Generator") and (has_dep(args) or has_dep(kwargs)):
+            self.rng_draws.append({"name": "native:%s" % getattr(fn, "__name__", "?"), "where": self.where})
         # 1b. opaque (Dep) arguments to anything that is not repository code: opaque result
         if (has_dep(args) or has_dep(kwargs)) and not (isinstance(key, types.FunctionType) and self.is_repo_code(key)) and not isinstance(fn, type) or \
                 (isinstance(fn, type) and (has_dep(args) or has_dep(kwargs)) and not self.is_repo_class(fn)):
@@ -564,6 +568,12 @@ class Interp:
         return self.native(fn, args, kwargs)
 
     def native(self, fn, args, kwargs, trusted=False):
+        mod = getattr(fn, "__module__", None) or getattr(getattr(fn, "__self__", None), "__module__", "") or ""
+        nm = getattr(fn, "__name__", "")
+        if (mod.startswith("numpy.random") or type(getattr(fn, "__self__", None)).__name__ in ("RandomState", "Generator")) and nm not in ("seed", "get_state", "default_rng"):
+            self.rng_draws.append({"name": "native:%s" % nm, "where": self.where})
+        if fn is builtins.open or nm in ("save", "savez", "savez_compressed", "savetxt", "writeto", "tofile", "dump") and mod.split(".")[0] in ("numpy", "astropy", "pickle", "json", "h5py"):
+            self.effect("file-write", None, "%s.%s" % (mod, nm))
         if not trusted:
             args = concretize(list(args))
             kwargs = concretize(dict(kwargs))
@@ -1130,7 +1140,11 @@ class Interp:
         out = []
         for x in elts:
             if isinstance(x, ast.Starred):
-                out.extend(list(self.iterate(self.ev(x.value, fr))))
+                sv = self.ev(x.value, fr)
+                if isinstance(sv, SeqA):
+                    out.append(StarSeq(sv))
+                    continue
+                out.extend(list(self.iterate(sv)))
             else:
                 out.append(self.ev(x, fr))
         return out
